@@ -16,7 +16,11 @@ MANIFEST = {
             "JSON number mapping, serde_json's number parser with and without float_roundtrip): every finite double reads "
             "back identically through to_string->to_number, source emission, formatter and JSON under the named library "
             "contracts (Rust Display / {:.0} / str::parse / serde_json text), radix/underscore/leading-dot/exponent literal "
-            "value theorems without library hypotheses, rn_decimal tied to Flocq's round-to-nearest-even; model and "
+            "value theorems without library hypotheses (pinned tree: 0x/0b below 2^63, rejected above = F25; repaired tree, "
+            "fixes/C16-radix-literal-range.diff: the u128-accumulator + sticky-bit conversion parse_radix_digits returns the "
+            "nearest double of the digit string's integer for EVERY length, C16_hex/bin_literal_value_fixed — which of the two "
+            "models the correspondence runs is decided by probing the built crate), rn_decimal tied to Flocq's "
+            "round-to-nearest-even; model and "
             "contracts tied to the code by the NUMTEXT correspondence (every path's Rust text re-read by the Coq reference "
             "rn_decimal and by the implementation; literals valued by Coq, Rust and an independent Python reference) and "
             "by a round-trip search on the implementation incl. the real CLI",
